@@ -18,6 +18,22 @@ Theorem C11_backup_never_removes : forall tr S, ok_backup S tr = true -> forall 
   (forall sn, In sn (snaps S) -> In sn (snaps (brun S (firstn n tr)))).
 Proof. exact backup_never_removes. Qed.
 
+(* Later operations: a second backup - complete or interrupted anywhere - on the state an interrupted
+   backup left behind keeps every present snapshot closed under the index; ... *)
+Theorem C11_backup_rerun_safe : forall tr1 tr2 S n1,
+  SnapsOk S -> ok_backup S tr1 = true -> ok_backup (brun S (firstn n1 tr1)) tr2 = true ->
+  forall n2, SnapsOk (brun (brun S (firstn n1 tr1)) (firstn n2 tr2)).
+Proof. exact backup_rerun_safe. Qed.
+
+(* ... and a prune with any valid plan and any trace with the structure of Execute (C09), interrupted
+   anywhere, on that state never loses a blob needed by a present snapshot. *)
+Theorem C11_prune_after_interrupted_backup_safe : forall tr S n1 pl ptr,
+  SnapsOk S -> ok_backup S tr = true ->
+  let S1 := brun S (firstn n1 tr) in
+  valid_planb (repo_of S1) (used_of S1) pl = true -> run_ok pl PhA (repo_of S1) ptr = true ->
+  forall n2, Consistent (run (repo_of S1) (firstn n2 ptr)) (used_of S1).
+Proof. exact prune_after_interrupted_backup_safe. Qed.
+
 Theorem C11_trace_oracle_sound : forall S0 tr, check_case (CTrace S0 tr) = 0%nat ->
   forall n, SnapsOk (brun S0 (firstn n tr)).
 Proof. exact check_trace_sound. Qed.
@@ -31,6 +47,8 @@ Proof. exact snaps_okb_iff. Qed.
 
 Print Assumptions C11_backup_prefix_safe.
 Print Assumptions C11_backup_never_removes.
+Print Assumptions C11_backup_rerun_safe.
+Print Assumptions C11_prune_after_interrupted_backup_safe.
 Print Assumptions C11_trace_oracle_sound.
 Print Assumptions C11_crash_oracle_sound.
 Print Assumptions C11_snaps_okb_iff.
